@@ -29,6 +29,8 @@ func init() {
 	ruleText["R01.9"] = "in the range generator, each 'if isString(operand type) {...} else {...}' installs in its string arm a run-time closure that calls reflect.Value.Convert (byte length of the prefix): the key-value and key-only forms agree"
 	ruleText["R01.10"] = "in the range generator every store through the frame index of the value child (n.child[1].findex) is inside an if whose condition derives from n.child[1].ident != \"_\""
 	ruleText["R01.11"] = "in cfg, the condition guarding the statement that turns a define into a no-op because it redeclares the for/range loop variable mentions the source operand (src.ident / src.kind)"
+	ruleText["R01.12"] = "in every run-time closure of a generator func(n *node) that has both successors, an if whose condition is a plain boolean read (x.Bool(), a bool variable, conjunctions, negation) returns tnext when the value is true and fnext when it is false, and a SetBool(literal) directly followed by a return agrees with the successor returned"
+	ruleText["R01.13"] = "same analysis as C08/R08.1: no run-time closure writes to a variable captured from its generator (recursion and re-entrancy execute the same closure in several activations)"
 	ruleText["R01.6"] = "in the multiple-assignment closures of the assignment generator, no loop both evaluates a source generator and writes a destination, and the temporaries receive fresh copies (reflect.New(T).Elem() + Set), never the aliasing result of a source generator"
 }
 
@@ -63,6 +65,19 @@ func runC01(c *Config, r *Report) {
 	c01R9(ic, r)
 	c01R10(ic, r)
 	c01R11(ic, r)
+	c01R12(ic, r)
+	// R01.13: run-time closures keep no mutable per-statement state (same analysis as
+	// C08/R08.1): a statement executed recursively or re-entered through a callback shares
+	// whatever its closure wrote into a captured generator variable.
+	{
+		sub := newReport("C08")
+		c08R1(ic, sub)
+		for _, o := range sub.Obls {
+			o.Rule = "R01.13"
+			r.add(o)
+		}
+		r.Errors = append(r.Errors, sub.Errors...)
+	}
 }
 
 // kindLabels returns the names of the nkind constants of a case clause.
